@@ -673,8 +673,10 @@ TEXT_ASSUME = [
 
 PLANS.update({
     'C16': {
-        'quick': [A_words('w4', 4, 'full'), A_words('tok6', 6, 'token', extra_opt='nodepth=1'), A_words('bad5', 5, 'badutf', extra_opt='nodepth=1'), A_decode('dec', 1), T_depth('depth6', 6)],
+        'quick': [A_words('w4', 4, 'full'), A_words('tok6', 6, 'token', extra_opt='nodepth=1'), A_words('bad5', 5, 'badutf', extra_opt='nodepth=1'),
+                  A_words('esc6', 6, 'escape', extra_opt='nodepth=1'), A_decode('dec', 1), T_depth('depth6', 6)],
         'thorough': [A_words('w5', 5, 'full', timeout=9000), A_words('w7s', 7, 'tiny', timeout=9000), A_words('tok7', 7, 'token', extra_opt='nodepth=1', timeout=9000),
+                     A_words('esc8', 8, 'escape', extra_opt='nodepth=1', timeout=9000),
                      A_decode('dec', 2), T_depth('depth7', 7)],
         'rule': 'TLC enumerates every word up to the stated length (extending viable prefixes only, so first-error words are included), checks '
                 'on the specification that the scanner automaton (Scanner.tla, a transcription of scanner.go) accepts exactly the texts of '
@@ -834,6 +836,7 @@ PLANS.update({
             A_words('w3', 3, 'full'), A_words('w3L', 3, 'full', extra_opt='nodepth=1', legacy=True),
             A_words('tok6', 6, 'token', extra_opt='nodepth=1'), A_words('tok6L', 6, 'token', extra_opt='nodepth=1', legacy=True),
             A_words('bad5', 5, 'badutf', extra_opt='nodepth=1'), A_words('bad5L', 5, 'badutf', extra_opt='nodepth=1', legacy=True),
+            A_words('esc6', 6, 'escape', extra_opt='nodepth=1'), A_words('esc6L', 6, 'escape', extra_opt='nodepth=1', legacy=True),
             A_decode('dec', 1), A_decode('decL', 1, legacy=True),
             AP('d1', [1, 2, 5, 6, 7, 8, 9], O_EVERY, [1, 2, 8, 9], [1], 1),
             AP('d2', [5, 6], [1, 7], [1, 8], [1], 2),
